@@ -1178,7 +1178,7 @@ pub fn run(prop: &'static str, tier: Tier) -> ! {
         "C06 constant: 4096 + 128*|x| bytes".to_string(),
         "64-bit host, features std+alloc; overflow checks and debug assertions on".to_string(),
     ];
-    finish(&ctx, cov, assumptions, all.tally, &replay)
+    finish(&ctx, cov, assumptions, all.tally, &crate::replay_case)
 }
 
 fn seeds_as_files() -> Vec<RFile> {
